@@ -150,9 +150,6 @@ theorem cert_ins_length {lib : Lib} {row : String → Cell} {ord : String → Li
   simp only [pinsFitB, Bool.and_eq_true, beq_iff_eq] at hfit
   rw [hfit.1, hd.nIn]
 
-/-- the library of the theorems as a predicate on cell types -/
-def libHas (lib : Lib) (ty : String) : Bool := (lib.find ty).isSome
-
 /-- every library instance carries its datasheet function under `σ` -/
 def LibDS (tl : TL) (stmts : List Stmt) (lib : Lib) (row : String → Cell) (σ : String → Bool) : Prop :=
   ∀ i ∈ vInsts stmts, libHas lib i.ty = true → ∃ fs, cellFuns row i.ty = some fs ∧
